@@ -217,58 +217,49 @@ func runFrames(e *env, mode string, id string) (res frResult) {
 			return dev("no heartbeat tick within 6 s")
 		}
 	}
-	// first writer: up to the point where its frame is partly handed over
-	step := func(release string) (string, bool) {
+	// both writers are let go up to their first Write call on the connection
+	arrived := func() (int, int) { return s.Count("conn.write.frame"), s.Count("conn.write.hdr") }
+	observe := func(release string, wait time.Duration) (string, bool) {
+		f0, h0 := arrived()
 		s.Release(release)
-		dl := time.Now().Add(stepWait)
+		dl := time.Now().Add(wait)
 		for time.Now().Before(dl) {
-			p := s.Parked()
-			if p["conn.write.frame"] > 0 {
+			f, h := arrived()
+			if f > f0 {
 				return "frame", true
 			}
-			if p["conn.write.hdr"] > 0 {
+			if h > h0 {
 				return "hdr", true
 			}
 			time.Sleep(100 * time.Microsecond)
 		}
 		return "", false
 	}
-	k1, ok := step(wkey(0))
+	k1, ok := observe(wkey(0), stepTimeout)
 	if !ok {
 		return dev("writer 1 did not write; parked %v", parkedList(s))
 	}
-	if k1 == "frame" {
-		// one Write per frame: nothing can get in between.  Let the second writer write while the first is parked inside Write
-		k2, ok := step(second)
-		if !ok || k2 != "frame" {
-			// both are parked at conn.write.frame: count must be 2
-			if s.Parked()["conn.write.frame"] < 2 {
-				return dev("writer 2 did not write a whole frame; parked %v", parkedList(s))
-			}
+	k2, ok2 := observe(second, 400*time.Millisecond)
+	switch {
+	case !ok2:
+		// writer 2 does not get to the connection while writer 1 is inside its frame: the writers are serialised
+		res.Serialised = true
+		dl := time.Now().Add(stepTimeout)
+		for time.Now().Before(dl) && cl.countType("data") < nsub {
+			passWrites()
+			time.Sleep(time.Millisecond)
 		}
+	case k1 == "frame" && k2 == "frame":
+		// one Write call per frame: nothing can get in between
 		s.Release("conn.write.frame", "conn.write.frame")
-	} else {
+	default:
+		// at least one writer hands its frame over in pieces: its header goes out, then everything of the other
+		// writer, then its payload
 		s.Release("conn.write.hdr")
 		if !s.WaitParked("conn.write.payload", stepTimeout) {
-			return dev("writer 1: no payload write after the header; parked %v", parkedList(s))
+			return dev("no payload write after a header; parked %v", parkedList(s))
 		}
-		stepTimeoutSave := stepWait
-		stepWait = 300 * time.Millisecond
-		k2, ok := step(second)
-		stepWait = stepTimeoutSave
-		if !ok {
-			// writer 2 does not get to the connection while writer 1 is in the middle of its frame:
-			// the writers are serialised.  Let everything through.
-			res.Serialised = true
-			dl := time.Now().Add(stepTimeout)
-			for time.Now().Before(dl) && cl.countType("data") < nsub {
-				passWrites()
-				time.Sleep(time.Millisecond)
-			}
-		} else {
-			if k2 != "hdr" {
-				return dev("writer 2 wrote %q while writer 1 is between header and payload; parked %v", k2, parkedList(s))
-			}
+		if k1 == "hdr" && k2 == "hdr" {
 			s.Release("conn.write.hdr")
 			dl := time.Now().Add(stepTimeout)
 			for s.Parked()["conn.write.payload"] < 2 && time.Now().Before(dl) {
@@ -277,9 +268,15 @@ func runFrames(e *env, mode string, id string) (res frResult) {
 			if s.Parked()["conn.write.payload"] < 2 {
 				return dev("two payload writes expected; parked %v", parkedList(s))
 			}
-			res.Forced = true
 			s.Release("conn.write.payload", "conn.write.payload")
+		} else {
+			n := s.Count("conn.write.frame")
+			s.Release("conn.write.frame")
+			_ = n
+			time.Sleep(5 * time.Millisecond) // the whole frame of the other writer is on the wire
+			s.Release("conn.write.payload")
 		}
+		res.Forced = true
 	}
 	want := 2
 	if hb {
